@@ -394,7 +394,10 @@ impl Scenario for C17 {
                     }
                 }
                 "challenge" => {
-                    sim.ext_send(pick_conn(mv.b), Message::HandshakeChallenge(HandshakeChallenge { challenge: [mi as u8 + 1; 32] }).serialize());
+                    // (every third one is the all-zero challenge: a signature over it is what a verifier that
+                    // falls back to a default challenge would accept)
+                    let ch = if mv.a % 3 == 0 { [0u8; 32] } else { [mi as u8 + 1; 32] };
+                    sim.ext_send(pick_conn(mv.b), Message::HandshakeChallenge(HandshakeChallenge { challenge: ch }).serialize());
                     r.fault("attacker_challenge", 1);
                 }
                 "open" => {
